@@ -416,6 +416,14 @@ pub fn mon_returned(case: &Case, rec: &Record, j: &Judged) -> Option<Violation> 
                 format!("returned query {:?} is not the merged URL+body multiset {:?}", rq, rm::canon_query(&a.merged_pairs())),
             );
         }
+        // "exactly the … parameters that were authenticated": X-Amz-Signature values are the one kind of parameter the
+        // signature never covers (anyone can append another copy), so none of them belongs in what is handed back
+        if let Some((_, v)) = got_pairs.iter().find(|(n, _)| n == rm::X_AMZ_SIGNATURE) {
+            return bad(
+                "folded-query-unauthenticated-parameter",
+                format!("returned query {:?} carries X-Amz-Signature={:?}, a parameter that is not covered by the signature", rq, crate::json::show_bytes(v)),
+            );
+        }
     }
     None
 }
